@@ -200,19 +200,26 @@ BLOCKED = re.compile(r"goroutine \d+ \[(semacquire|sync\.Mutex\.Lock|sync\.RWMut
 
 def harness_cases(ck, binp, args, tag):
     """run the harness; a hang is neither erased nor reported from load alone: every hung case is re-run (same input,
-    60 s watchdog). The original stays a failure unless the re-run completes AND, in the first run's goroutine dump, no
+    30 s watchdog). The original stays a failure unless the re-run completes AND, in the first run's goroutine dump, no
     goroutine of pkg/txpool was blocked on a lock/channel other than through a call the harness itself was holding."""
     env = {"GORACE": "log_path=%s exitcode=0 halt_on_error=0" % os.path.join(ck.work, "race_c14")}
     recs = ck.run_harness(binp, args, out_name=tag + ".jsonl", env_extra=env)
     if recs is None:
         return None
-    hung = [r for r in recs if any(s["hang"] for s in r["steps"])]
-    if not hung:
+    hung_all = [r for r in recs if any(s["hang"] for s in r["steps"])]
+    if not hung_all:
         return recs
+    # load can stall a handful of cases, not dozens: only the first few are re-run (bounded time), the others stay failures
+    hung = hung_all[:3]
     inp = os.path.join(ck.work, tag + "_rerun_in.jsonl")
     open(inp, "w").write("".join(json.dumps(r) + "\n" for r in hung))
-    again = ck.run_harness(binp, ["-in", inp, "-n", "0"], out_name=tag + "_rerun.jsonl", timeout=3600,
-                           env_extra=dict(env, VERIF_WATCHDOG_MS="60000"))
+    n_obl = ck.obligations
+    again = ck.run_harness(binp, ["-in", inp, "-n", "0"], out_name=tag + "_rerun.jsonl", timeout=420,
+                           env_extra=dict(env, VERIF_WATCHDOG_MS="30000"))
+    if again is None:
+        # the re-run itself did not finish: the hung cases stay failures; do not add a second (harness) failure for it
+        ck.failures = [f for f in ck.failures if not str(f.get("key", "")).startswith("obligation:harness-run")]
+        ck.obligations = n_obl
     again = (again or [])[-len(hung):]
     replaced, kept = {}, 0
     for i, orig in enumerate(hung):
@@ -223,8 +230,9 @@ def harness_cases(ck, binp, args, tag):
             replaced[id(orig)] = again[i]
         else:
             kept += 1
-    ck.notes.append("%s: %d case(s) did not return within the watchdog; re-run with 60 s: %d completed and showed no pool goroutine "
-                    "blocked (treated as load), %d kept as failures (dump in the replay)" % (tag, len(hung), len(replaced), kept))
+    kept += len(hung_all) - len(hung)
+    ck.notes.append("%s: %d case(s) did not return within the watchdog; %d re-run with 30 s: %d completed and showed no pool goroutine "
+                    "blocked (treated as load), %d kept as failures (dump in the replay)" % (tag, len(hung_all), len(hung), len(replaced), kept))
     return [replaced.get(id(r), r) for r in recs]
 
 
